@@ -70,12 +70,13 @@ pub fn spec(prop: &str) -> Spec {
             stub: vec![
                 "multi-thread tokio runtimes are replaced by the simulator's current_thread runtime through the cfg-gated override (C16, C11 converters); -t 1 runs natively",
                 "C17 -t N: the tool's own std::thread pool runs for real (uncontrolled, counted separately)",
-                "C17 library mode: SimRead with short reads/EINTR",
+                "C17 library mode: SimRead with short reads/EINTR and (a third) one hard read error, F10",
+                "C15 (a fifth of the bigWig-output cases) and C16 (a tenth of the cases): the tool's pipeline composed from its public pieces over SimRead inputs with one hard read error, F10",
             ],
             assumptions,
         },
         "C18" => Spec {
-            rule: "half of the cases: a FileView over a seeded window of a seeded scratch file driven through a seeded history of 1-14 read/seek operations against a clamped-cursor model; the rest: seeded grouped / non-grouped files (run lengths x line-length patterns incl. 200-3000 byte lines and multi-byte text x final newline) for index_chroms and for split_file_into_chunks_by_size with every chunk count 1..lines+2. distinct = distinct case hash; non-trivial = at least 2 operations / 2 lines. index and chunking are pure functions of the file (no schedule or fault dimension) and are counted separately".to_string(),
+            rule: "half of the cases: a FileView over a seeded window of a seeded scratch file (half of them on a handle that earlier reads/seeks left at some offset) driven through a seeded history of 1-14 read/seek operations against a clamped-cursor model; the rest: seeded grouped / non-grouped files (run lengths x line-length patterns incl. 200-3000 byte lines and multi-byte text x final newline) for index_chroms and for split_file_into_chunks_by_size with every chunk count 1..lines+2. distinct = distinct case hash; non-trivial = at least 2 operations / 2 lines. index and chunking are pure functions of the file (no schedule or fault dimension) and are counted separately".to_string(),
             real: vec!["bigtools::utils::file_view::FileView, bigtools::bed::indexer::index_chroms, bigtools::utils::split_file_into_chunks_by_size on real scratch files"],
             stub: vec!["none"],
             assumptions,
@@ -96,7 +97,7 @@ pub fn spec(prop: &str) -> Spec {
             assumptions,
         },
         "C11" => Spec {
-            rule: "4 of 5 cases: one workload + format options written once as reference (serial source, in-memory, calm) and 3-7 variants (source kind, channel size, buffering, schedule policy+seed, sink short writes/EINTR, 1 in 12 on a real multi-thread runtime), all images compared byte for byte; 1 of 5 cases: a written file converted by write_bg/write_bed on the simulator's runtime (-t 2..16) under a seeded schedule and compared with the single-threaded text. distinct = distinct case hash; non-trivial = at least 2 chromosomes and 2 sections".to_string(),
+            rule: "4 of 5 cases: one workload + format options written once as reference (serial source, in-memory, calm) and 3-7 variants (source kind, channel size, buffering, schedule policy+seed, sink short writes/EINTR, 1 in 12 on a real multi-thread runtime), all images compared byte for byte; 1 of 5 cases: a written file converted by write_bg/write_bed on the simulator's runtime (-t 2..16) under a seeded schedule and compared with the single-threaded text (a fifth of these through SimRead with one hard read error, F10: the conversion may fail, a reported success must give the same text). distinct = distinct case hash; non-trivial = at least 2 chromosomes and 2 sections".to_string(),
             real: PIPE_REAL.to_vec(),
             stub: PIPE_STUB.to_vec(),
             assumptions,
